@@ -169,6 +169,41 @@ MUTANTS = [
      "        if _sl is not None and not relabel and np.all(np.asarray(new_label) != 0):\n"
      "            self.__dict__['slices'] = _sl\n"
      "        self._update_deblend_label_map(relabel_map)\n"),
+    ('C08', 'private_iterable_not_kept_iterable', 'segmentation/catalog.py',
+     "                        val = value[:, np.newaxis][index]\n"
+     "                    else:\n"
+     "                        val = [value[index]]",
+     "                        val = value[index]\n"
+     "                    else:\n"
+     "                        val = [value[index]]"),
+    ('C08', 'fancy_index_on_list_reversed', 'segmentation/catalog.py',
+     "                val = (np.array([*value, None],\n"
+     "                                dtype=object)[:-1][index]).tolist()",
+     "                val = (np.array([*value, None],\n"
+     "                                dtype=object)[:-1][index]).tolist()[::-1]"),
+    ('C08', 'one_cached_list_shared_not_sliced', 'segmentation/catalog.py',
+     "            if np.isscalar(value):\n                continue\n\n            try:\n                # keep _<attr>",
+     "            if np.isscalar(value):\n                continue\n"
+     "            if key == 'bbox' and not newcls.isscalar:\n"
+     "                newcls.__dict__[key] = value\n                continue\n\n"
+     "            try:\n                # keep _<attr>"),
+    ('C08', 'extras_list_shared_again', 'segmentation/catalog.py',
+     "        newcls._extra_properties = self._extra_properties.copy()\n",
+     "        newcls._extra_properties = self._extra_properties\n"),
+    ('C08', 'detection_cat_not_sliced', 'segmentation/catalog.py',
+     "            setattr(newcls, attr, getattr(self, attr)[index])\n\n        attr = '_slices'",
+     "            setattr(newcls, attr, getattr(self, attr))\n\n        attr = '_slices'"),
+    ('C08', 'aperstats_local_bkg_not_sliced', 'aperture/stats.py',
+     "        keys.add('_local_bkg')  # iterable defined in __init__\n",
+     ""),
+    ('C08', 'aperstats_ids_not_sliced', 'aperture/stats.py',
+     "        attrs = ('aperture', '_ids')\n",
+     "        attrs = ('aperture',)\n        newcls._ids = self._ids\n"),
+    ('C08', 'scalar_centroid_quad_fallback_reverted', 'segmentation/catalog.py',
+     "            if self.isscalar:\n"
+     "                cutout_centroid = cutout_centroid[np.newaxis, :]\n"
+     "            centroid_quad[nan_mask]",
+     "            centroid_quad[nan_mask]"),
 ]
 
 
